@@ -6,10 +6,11 @@ func init() {
 			Bounds: []string{
 				"kernel calcBitIndex: output zoom case-split over 0..3 (quick) / 0..4 (thorough); altitude(s) and height range any reals with |.| <= 10^6 and max-min >= 1e-3: index in 0..2^zoom-1, monotone in the altitude, clamped below/above the range — relaxed encoding with the rounding error as a monotone function of the exact result (over-approximates IEEE binary64)",
 				"kernel structure at output zooms 1, 5, 8, 16, 35 (thorough also 24): index in 0..2^zoom-1 and monotone in the altitude for ANY doubles (float arithmetic uninterpreted, comparisons exact; one-shot z3 5.1 per query)",
+				"reverse direction (ConvertQuadkeysAndVerticalIDsToExtendedSpatialIDs with max > min): for (bit zoom, index, output vZoom) in {(1,0,25),(1,1,25),(2,3,24),(2,1,26)}, any height range within +-10^5 m whose cells are at most two output cells tall: the returned run is contiguous, duplicate-free, covers the altitude interval of cell i (bounds in exact reals, tolerance 1e-6 m for the rounding of the two bounds) and does not reach beyond the cells touching it; thorough: a request of two pairs with the same index and different height ranges (second range concrete), in either order, gives the union of the single conversions",
 				"forward entry convertVerticallIDToBit: the returned set is exactly the run from the bottom cell to the top cell (run length <= 4), for (voxel zoom, output zoom) in {(0,1),(0,2),(20,1)}",
 				"maxHeight < minHeight: error in both directions (any doubles)",
 			},
-			Outside: []string{"the REVERSE direction (bit index back to a run of vertical indices): only its max < min error case is decided; a numeric harness for the cover of cell i did not finish", "output zooms above 4 (solver time grows steeply with the number of halvings: zoom 4 needs several minutes)", "the forward entry at voxel zooms 25/30 and output zooms above 2 (solver unknown at 120 s)", "that the cell interval produced by the halving contains the altitude to the last ulp (the borders are rounded sums; only order properties are claimed)", "the inverse entry's contiguity beyond the error case (it goes through NewPoint / GetExtendedSpatialIdsOnPoints whose vertical kernel is C01)", "height ranges beyond +-10^6 m"},
+			Outside: []string{"the reverse direction beyond bit-index zooms 1..2 and cells taller than two output cells", "output zooms above 4 (solver time grows steeply with the number of halvings: zoom 4 needs several minutes)", "the forward entry at voxel zooms 25/30 and output zooms above 2 (solver unknown at 120 s)", "that the cell interval produced by the halving contains the altitude to the last ulp (the borders are rounded sums; only order properties are claimed)", "the inverse entry's contiguity beyond the error case (it goes through NewPoint / GetExtendedSpatialIdsOnPoints whose vertical kernel is C01)", "height ranges beyond +-10^6 m"},
 		},
 		insts: func(tier string) []*Instance {
 			var is []*Instance
@@ -53,6 +54,22 @@ func init() {
 				in.Unwind = 40
 				in.Timeout = 120000
 				is = append(is, in)
+			}
+			{
+				for _, c := range [][5]int{{1, 0, 25, 1, 0}, {1, 1, 25, 1, 0}, {2, 3, 24, 1, 0}, {2, 1, 26, 1, 0}, {1, 1, 25, 2, 0}, {2, 0, 24, 2, 1}} {
+					if c[3] == 2 && tier != "thorough" {
+						continue // the two-pair form needs 7-9 minutes
+					}
+					in := mk("transform", "VerifC17Reverse", cs("z", c[0], "i", c[1], "ov", c[2], "n", c[3], "ord", c[4]))
+					in.Relaxed = true
+					in.RelaxedUF = c[3] == 2 // the same conversion runs twice (in the list and alone): its rounding must be a function
+					in.Solver = Z3New
+					in.Stateless = true
+					in.Timeout = 60000
+					in.Unwind = 40
+					in.MaxSeconds = 2400
+					is = append(is, in)
+				}
 			}
 			e := mk("transform", "VerifC17Errors", nil)
 			e.Solver = CVC5
